@@ -648,3 +648,35 @@ pub fn attr_spec() -> impl Strategy<Value = AttrSpec> {
 	])
 		.prop_map(|(oid_idx, values)| AttrSpec { oid_idx, values: Hex(values) })
 }
+
+/// Specs restricted to what a CSR can express (everything else at its default), with the
+/// same sparsity structure over the four CSR-expressible extension fields.
+pub fn csr_spec(moderate: bool, standard_ekus: bool, with_custom: bool) -> BoxedStrategy<CertSpec> {
+	let mask = prop_oneof![
+		1 => Just(0u8),
+		4 => (0u8..4).prop_map(|k| 1u8 << k),
+		5 => 0u8..16,
+		2 => Just(0x0fu8),
+	];
+	(
+		dn(6, moderate, !moderate),
+		vec(san(moderate), 1..5),
+		key_usages(1),
+		vec(eku(moderate, standard_ekus), 1..4),
+		vec(custom_ext(moderate), 1..3),
+		mask,
+		kid(),
+	)
+		.prop_map(move |(dn, sans, ku, ekus, custom, mask, kid)| {
+			let keep = |b: u8| mask & (1 << b) != 0;
+			let mut s = CertSpec::minimal();
+			s.dn = dn;
+			s.kid = kid;
+			s.sans = if keep(0) { sans } else { vec![] };
+			s.key_usages = if keep(1) { ku } else { vec![] };
+			s.ekus = if keep(2) { ekus } else { vec![] };
+			s.custom_exts = if keep(3) && with_custom { custom } else { vec![] };
+			s
+		})
+		.boxed()
+}
